@@ -645,8 +645,8 @@ def text_fd_to_metric_families(fd):
                 raise ValueError("Info samples can only have value one: " + line)
             if typ == 'summary' and name == sample.name and sample.value < 0:
                 raise ValueError("Quantile values cannot be negative: " + line)
-            if sample.name[len(name):] in ['_total', '_sum', '_count', '_bucket', '_gcount', '_gsum'] and math.isnan(
-                    sample.value):
+            if (sample.name[len(name):] in ['_total', '_sum', '_count', '_bucket', '_gcount', '_gsum']
+                    and isinstance(sample.value, float) and math.isnan(sample.value)):
                 raise ValueError("Counter-like samples cannot be NaN: " + line)
             if sample.name[len(name):] in ['_total', '_sum', '_count', '_bucket', '_gcount'] and sample.value < 0:
                 raise ValueError("Counter-like samples cannot be negative: " + line)
